@@ -32,6 +32,12 @@ TRUSTED = [
     'blocked in from /proc/<pid>/syscall (first argument of wait4: -pid = step_exec, pid = the failure path of step_fork); the runner\'s '
     'words on stderr are recorded and compared but decide nothing, except "process group failure" for a runner that was never '
     'seen blocked on the failure path',
+    'BOUNDARY CLASSES: SIGPIPE deliveries are taken out of the history before the model and the oracle see it (the claim "an ignored '
+    'signal is no event" is the harness\'s); a stopped member is given to the model as a TERM-ignoring one, a member that called setsid() '
+    'and its subtree are pruned from the tree (c07.model_tree) - both shapes are outside the kernel model above; tools/kl_sched.py counts a '
+    'pid as a process of the step only while it descends from the scheduler (pid reuse on a loaded machine); death of the main process '
+    'from a signal other than SIGTERM / SIGKILL during the takedown, a non-main zombie and a direct SIGALRM before alarm() is armed '
+    'have no counterpart in the model and are not generated',
     'exitstatus(): KillDefs.exitstatus is proved equal to C06\'s clang-translated Gen_Exec.exitstatus for all integers '
     '(C07_exit_mapping); the translation itself is C06\'s',
 ]
@@ -185,6 +191,230 @@ def race_cases(ctx, n):
     return cases
 
 
+# ---- boundary SIZE / SHAPE classes ------------------------------------------------------------------------
+# The runner itself signals the GROUP (one kill(2)), so member counts do not flow into a buffer of step-exec.c; they flow
+# into the harness's own bookkeeping (ready file, /proc scan, alive bits, model tokens), which must scale, and they guard
+# against a runner that starts to enumerate processes.  What does flow into the runner: the NUMBER of signals it receives
+# (sighandler runs once per delivery), WHICH signal (SIGTERM / SIGALRM handled, SIGPIPE ignored - siginstall), WHEN
+# (every sync point), the wait status of the main process (every exit code; gotsig decides between code and 124), the
+# configured timeout (0 = no alarm), and the 50 x 100 ms poll before the escalation to SIGKILL.
+KIDS_B = [0, 1, 2, 15, 16, 17, 31, 32, 33, 63, 64, 65]
+
+
+def wide(nkids, ign_mod=0, main='d'):
+    """main + nkids children; every ign_mod-th child ignores SIGTERM"""
+    return main + '(' + ''.join('i()' if ign_mod and i % ign_mod == 0 else 'd()' for i in range(nkids)) + ')'
+
+
+def grand(nkids, main='d'):
+    """main - one child - nkids grandchildren"""
+    return main + '(d(' + 'd()' * nkids + '))'
+
+
+def chain(depth, leaf='d()'):
+    """a chain of `depth` generations below the main process"""
+    t = leaf
+    for _ in range(depth - 1):
+        t = 'd(' + t + ')'
+    return 'd(' + t + ')' if depth > 0 else 'd()'
+
+
+def bcase(tree, mode, timeout, script, cls, **kw):
+    c = {'tree': tree, 'nodes': count_nodes(tree), 'mode': mode, 'timeout': timeout, 'script': [list(x) for x in script], 'classes': [cls]}
+    c.update(kw)
+    return c
+
+
+TERM_AT_BLOCKED = [('B', ''), ('S', 'TERM'), ('F', '')]
+ALRM_AT_BLOCKED = [('B', ''), ('S', 'ALRM'), ('F', '')]
+
+
+def b_members(nkids, shape='wide', ign_mod=0, main='d', alarm=False):
+    tree = wide(nkids, ign_mod, main) if shape == 'wide' else grand(nkids, main)
+    cls = 'group members: main + %d %s%s%s' % (nkids, 'children' if shape == 'wide' else 'grandchildren',
+                                               ', every %d. ignores SIGTERM' % ign_mod if ign_mod else '',
+                                               ', main ignores SIGTERM' if main == 'i' else '')
+    if alarm:
+        return bcase(tree, 'regress', 3600, ALRM_AT_BLOCKED, cls)
+    return bcase(tree, 'canvas', 0, TERM_AT_BLOCKED, cls)
+
+
+def b_depth(depth, leaf='d()'):
+    return bcase(chain(depth, leaf), 'canvas', 0, TERM_AT_BLOCKED, 'tree depth %d%s' % (depth, ', leaf ignores SIGTERM' if leaf[0] == 'i' else ''))
+
+
+def b_terms(n, main='d', spaced=False):
+    """n SIGTERMs reach the runner: spread over the stop points of the takedown (several at the last one), or - spaced -
+    really one after the other while the runner polls for a TERM-ignoring main process (undriven, oracle only)"""
+    tree = main + '(d()i())'
+    if spaced:
+        script = [('D', 400), ('S', 'TERM')]
+        for _ in range(n - 1):
+            script += [('D', 120), ('S', 'TERM')]
+        return bcase('i(d()i())', 'canvas', 0, script + [('F', '')], 'SIGTERM x %d, 120 ms apart while the runner polls' % n, race=True)
+    pts = ['exec.wait_interrupted', 'kill.before_term', 'kill.after_term'] + (['kill.before_kill', 'kill.after_kill'] if main == 'i' else [])
+    script = [('B', ''), ('S', 'TERM')]
+    for i in range(1, n):
+        if i <= len(pts):
+            script.append(('R', pts[i - 1]))
+        script.append(('S', 'TERM'))
+    return bcase(tree, 'canvas', 0, script + [('F', '')], 'SIGTERM x %d at the stop points of the takedown%s' % (n, ' (main ignores SIGTERM)' if main == 'i' else ''))
+
+
+def b_sigpipe(point, mode='canvas'):
+    """SIGPIPE - which the runner ignores from exec.after_sigpipe on - at a sync point / while blocked / inside the kill
+    phase: no effect; the SIGTERM that follows takes the group down as if nothing had happened"""
+    to = 3600 if mode == 'regress' else 0
+    if point == 'blocked':
+        script = [('B', ''), ('S', 'PIPE'), ('S', 'TERM'), ('F', '')]
+    elif point.startswith('kill.') or point == 'exec.wait_interrupted':
+        script = [('B', ''), ('S', 'TERM'), ('R', point), ('S', 'PIPE'), ('F', '')]
+    else:
+        script = [('R', point), ('S', 'PIPE'), ('B', ''), ('S', 'TERM'), ('F', '')]
+    tree = 'i(d())' if point in ('kill.before_kill', 'kill.after_kill') else 'd(d()i())'
+    return bcase(tree, mode, to, script, 'SIGPIPE (ignored by the runner) at %s' % point)
+
+
+def b_selfexit_between(member, point):
+    """a TERM-ignoring member (0 = the main process) exits on its own between the group's SIGTERM and its SIGKILL"""
+    tree = 'ie4(ie3()d()i())'
+    return bcase(tree, 'canvas', 0, [('B', ''), ('S', 'TERM'), ('R', point), ('X', member), ('F', '')],
+                 'TERM-ignoring %s exits on its own at %s' % ('main process' if member == 0 else 'member', point))
+
+
+def b_main_status(code, point):
+    """the main process exits with `code` during the takedown"""
+    ign = point in ('kill.after_term', 'kill.before_kill')
+    tree = '%se%d(d()i())' % ('i' if ign else 'd', code)
+    return bcase(tree, 'canvas', 0, [('B', ''), ('S', 'TERM'), ('R', point), ('X', 0), ('F', '')],
+                 'main process exits %d at %s' % (code, point))
+
+
+def b_timeout(to, script, what):
+    return bcase('d(d()i())', 'regress', to, script, 'regress-timeout %d: %s' % (to, what))
+
+
+def b_escalation(rel_ms):
+    """undriven: SIGTERM at 300 ms; the TERM-ignoring main process exits 3 on its own rel_ms before (-) / after (+) the
+    moment the runner escalates to SIGKILL (kill timeout read from the source when the case runs)"""
+    return bcase('ie3t{T}(d())', 'canvas', 0, [('D', 300), ('S', 'TERM'), ('F', '')],
+                 'main process exits on its own %d ms %s the escalation to SIGKILL' % (abs(rel_ms), 'before' if rel_ms < 0 else 'after'),
+                 race=True, timed={'rel_ms': rel_ms})
+
+
+def model_tree(tree):
+    """(the tree in the model's vocabulary, keep mask per node of the real tree).  Two member shapes are OUTSIDE the kernel
+    model of Exec/KillDefs.v (TRUSTED: "SIGTERM kills default-disposition members", "members that leave the group are not
+    modelled") and are translated before the model and the oracle see the tree:
+      S  a stopped member does not act on SIGTERM before it is continued, SIGKILL kills it: until then it behaves as a member
+         that ignores SIGTERM - it is handed to the model as 'i';
+      N  a member that called setsid() is no member of the group any more: it and its subtree are pruned (kept False)."""
+    out, keep, pos = [], [], [0]
+
+    def node(dropped):
+        d = tree[pos[0]]
+        pos[0] += 1
+        flag = ''
+        if tree[pos[0]] in 'SN':
+            flag = tree[pos[0]]
+            pos[0] += 1
+        dropped = dropped or flag == 'N'
+        keep.append(not dropped)
+        st = pos[0]
+        while tree[pos[0]] != '(':
+            pos[0] += 1
+        if not dropped:
+            out.append(('i' if flag == 'S' else d) + tree[st:pos[0]] + '(')
+        pos[0] += 1
+        while tree[pos[0]] != ')':
+            node(dropped)
+        pos[0] += 1
+        if not dropped:
+            out.append(')')
+    node(False)
+    return ''.join(out), keep
+
+
+def model_view(c, o):
+    """case and observation as the model / the oracle / the signature predicates see them"""
+    if 'S' not in c['tree'] and 'N' not in c['tree']:
+        return c, o
+    mt, keep = model_tree(c['tree'])
+    idx = [i for i, k in enumerate(keep) if k]
+    back = {i: j for j, i in enumerate(idx)}
+    cm = dict(c, tree=mt, nodes=len(idx))
+    om = dict(o)
+    for k in ('alive', 'alive_at_exit'):
+        om[k] = [o[k][i] for i in idx]
+    om['selfexit'] = [back[i] for i in o['selfexit'] if i in back]
+    return cm, om
+
+
+def b_shape(tree, script, cls, mode='canvas', to=0):
+    return bcase(tree, mode, to, script, cls)
+
+
+def shape_cases():
+    """members the kernel model does not have: stopped when the signal arrives, gone to a session of their own"""
+    return [
+        b_shape('d(dS()d())', TERM_AT_BLOCKED, 'a default-disposition member is STOPPED when SIGTERM reaches the group'),
+        b_shape('dS(d()i())', TERM_AT_BLOCKED, 'the main process is STOPPED when SIGTERM reaches the group (SIGKILL after the poll)'),
+        b_shape('d(iS(d()))', ALRM_AT_BLOCKED, 'a TERM-ignoring member is STOPPED, timeout', 'regress', 3600),
+        b_shape('d(dN(d()i())d())', TERM_AT_BLOCKED, 'OUTSIDE (kernel model): a member and its subtree left the group with setsid()'),
+        b_shape('i(dN()d())', TERM_AT_BLOCKED, 'OUTSIDE (kernel model): a member left the group with setsid(), main ignores SIGTERM'),
+    ]
+
+
+SYNC_POINTS_PIPE = ['exec.after_sigpipe', 'exec.after_sigterm', 'exec.before_waitpid', 'blocked', 'exec.wait_interrupted',
+                    'kill.before_term', 'kill.after_term', 'kill.before_kill', 'kill.after_kill']
+
+
+def boundary_corpus_cases():
+    """one deterministic case per class value (written to corpus/C07/b07_*.json)"""
+    out = {}
+    out['members'] = [b_members(k) for k in KIDS_B] + [b_members(k, 'grand') for k in KIDS_B[1:]] \
+        + [b_members(16, 'wide', 3), b_members(64, 'wide', 2), b_members(65, 'wide', 0, 'd', True), b_members(17, 'grand', 0, 'd', True)]
+    out['depth'] = [b_depth(d) for d in (1, 2, 8)] + [b_depth(8, 'i()')]
+    out['sigterm_count'] = [b_terms(n) for n in (1, 2, 3, 16)] + [b_terms(3, 'i'), b_terms(16, 'i'), b_terms(3, 'i', True), b_terms(16, 'i', True)]
+    out['sigpipe'] = [b_sigpipe(p) for p in SYNC_POINTS_PIPE] + [b_sigpipe('exec.after_sigalrm', 'regress'), b_sigpipe('blocked', 'regress')]
+    out['selfexit_between'] = [b_selfexit_between(m, p) for m in (0, 1) for p in ('kill.after_term', 'kill.before_kill')]
+    out['main_status'] = [b_main_status(c, p) for c in (0, 1, 255) for p in ('exec.wait_interrupted', 'kill.before_term', 'kill.after_term')] \
+        + [b_main_status(255, 'kill.before_kill')]
+    out['timeout'] = [b_timeout(0, TERM_AT_BLOCKED, 'no alarm, SIGTERM while blocked'),
+                      b_timeout(0, [('R', 'exec.after_sigalrm'), ('S', 'TERM'), ('F', '')], 'the sync point after siginstall(SIGALRM) is never reached'),
+                      b_timeout(0, [('B', ''), ('E', ''), ('S', 'TERM'), ('F', '')], 'nothing expires'),
+                      b_timeout(1, [('B', ''), ('E', ''), ('F', '')], 'expires while blocked'),
+                      b_timeout(1, [('R', 'exec.after_sigalrm'), ('S', 'TERM'), ('F', '')], 'SIGTERM before alarm(1) is armed')]
+    out['escalation'] = [b_escalation(-1200), b_escalation(1500)]
+    out['member_shapes'] = shape_cases()
+    return out
+
+
+def gen_boundary_cases(rng, n):
+    """the same classes with random parameters (small share of the run)"""
+    out = []
+    for _ in range(n):
+        r = rng.random()
+        if r < 0.3:
+            out.append(b_members(rng.choice(KIDS_B), rng.choice(['wide', 'grand']), rng.choice([0, 0, 2, 3]) if r < 0.15 else 0, 'd', rng.random() < 0.3))
+        elif r < 0.4:
+            out.append(b_depth(rng.choice([1, 2, 8]), rng.choice(['d()', 'i()'])))
+        elif r < 0.55:
+            out.append(b_terms(rng.choice([2, 3, 16]), 'd'))
+        elif r < 0.75:
+            p = rng.choice(SYNC_POINTS_PIPE[:7] + ['exec.after_sigalrm'])
+            out.append(b_sigpipe(p, 'regress' if p == 'exec.after_sigalrm' or rng.random() < 0.3 else 'canvas'))
+        elif r < 0.85:
+            out.append(b_main_status(rng.choice([0, 1, 2, 255]), rng.choice(['exec.wait_interrupted', 'kill.before_term', 'kill.after_term'])))
+        elif r < 0.90:
+            out.append(b_selfexit_between(rng.choice([0, 1]), 'kill.after_term'))
+        elif r < 0.95:
+            out.append(rng.choice(shape_cases()[:1] + shape_cases()[3:]))
+        else:
+            out.append(rng.choice(boundary_corpus_cases()['timeout']))
+    return out
+
+
 # ---- running -----------------------------------------------------------------------------
 
 def build_probe(ctx):
@@ -283,6 +513,8 @@ def model_line(case):
             toks.append(op)
         elif op == 'S' and arg == 'ALRMREAL':
             toks.append('E')
+        elif op == 'S' and arg == 'PIPE':
+            continue                    # ignored by the runner (siginstall(SIGPIPE, SIG_IGN)): no transition of the model
         elif op == 'S':
             toks.append('S:' + arg)
         elif op in ('R', 'X'):
@@ -298,7 +530,7 @@ def oracle_line(case, o):
 
 def main_code(tree):
     """exit code (mod 256) with which the main process exits on its own, None if it cannot"""
-    m = re.match(r'[di]e(\d+)', tree)
+    m = re.match(r'[di][SN]?e(\d+)', tree)
     return int(m.group(1)) % 256 if m else None
 
 
@@ -417,6 +649,13 @@ def evaluate(ctx, cases, res, env=None):
         env['drv'] = ctx.build_driver('kl', withz=True)
         env['work'] = ctx.mkscratch('c07work')
         env['n'] = 0
+        # how long killwaitpg1 polls before the escalation: killwaitpg(pid, <ms>, &status)
+        mm = re.search(r'killwaitpg\(pid,\s*(\d+),', open(os.path.join(common.REPO, 'step-exec.c')).read())
+        if not mm:
+            raise common.BuildFailure('step-exec.c: killwaitpg(pid, <ms>, &status) was not found')
+        env['kill_ms'] = int(mm.group(1))
+    cases = [dict(c, tree=c['tree'].replace('{T}', str(300 + env['kill_ms'] + c['timed']['rel_ms']))) if c.get('timed') else c
+             for c in cases]
     base = env['n']
     env['n'] += len(cases)
     with ThreadPoolExecutor(24) as ex:
@@ -430,25 +669,52 @@ def evaluate(ctx, cases, res, env=None):
         if 'error' not in o and not c.get('race') and o.get('slow') and not expected_slow(c):
             res.count('outside: handshake expired without the shim (machine load), case repeated')
             obs[i] = run_impl(env['impl'], env['probe'], env['hold'], env['work'], 10 ** 6 + base + i, c)
-    qs = []
     for c, o in zip(cases, obs):
+        if 'error' not in o:
+            # SIGPIPE deliveries (boundary class "signal the runner ignores") are no events: they are taken out of the
+            # history here and counted; everything below sees only SIGTERM / SIGALRM
+            o['deliveries_pipe'] = [d for d in o['deliveries'] if d[0] == 'PIPE']
+            o['deliveries'] = [d for d in o['deliveries'] if d[0] != 'PIPE']
+    views = [model_view(c, o) if 'error' not in o else (c, o) for c, o in zip(cases, obs)]
+    qs = []
+    for c, o in views:
         if 'error' in o:
             qs += ['bad', 'bad']
             continue
         qs.append(model_line(c) if not c.get('race') else 'bad')
         qs.append(oracle_line(c, o))
     ans = common.run_driver(env['drv'], qs)
-    for i, (c, o) in enumerate(zip(cases, obs)):
+    for i, ((c, o), c0, o0) in enumerate(zip(views, cases, obs)):
         res.evaluations += 1
         if 'error' in o:
-            res.tie_errors.append('scheduler: %s on %s' % (o['error'][-300:], json.dumps(c)))
+            res.tie_errors.append('scheduler: %s on %s' % (o['error'][-300:], json.dumps(c0)))
             continue
+        if c is not c0:
+            # members outside the kernel model, recorded for what they are
+            _, keep = model_tree(c0['tree'])
+            gone = [i_ for i_, k in enumerate(keep) if not k]
+            if gone:
+                res.count('outside (kernel model): %d member(s) left the group with setsid(): %s after the runner ended'
+                          % (len(gone), 'all alive' if all(o0['alive'][i_] for i_ in gone) else 'NOT all alive'))
+            if 'S' in c0['tree']:
+                res.count('stopped member(s) handed to the model as TERM-ignoring; alive (stopped, SIGTERM pending) after the runner '
+                          'ended: %d' % sum(1 for i_, ch in enumerate(re.findall(r'[di]([SN]?)', c0['tree'])) if ch == 'S' and o0['alive'][i_]))
         m, ok = ans[2 * i], ans[2 * i + 1]
         impl_s = canon_obs(c, o)
         event, late, self_, where = history_of_obs(c, o)
         key = hashlib.sha1(json.dumps([c['tree'], c['mode'], c['script']]).encode()).hexdigest()
         env['last'] = {'model': m, 'implementation': impl_s, 'oracle_ok': ok == '1', 'stderr': o.get('stderr', '')[-300:]}
         res.count('nodes=%d' % c['nodes'])
+        for k in c.get('classes', []):
+            res.count('class: ' + k)
+        for sg, w in o.get('deliveries_pipe', []):
+            res.count('SIGPIPE delivered while the runner was at %s' % w)
+        if c.get('timed'):
+            # not part of the verdict (the property names no duration): did the escalation come when the source says
+            want = ([15], ['exit', 3]) if c['timed']['rel_ms'] < 0 else ([15, 9], ['exit', 137])
+            res.count('class: escalation boundary (%+d ms): kills %r, runner %r - %s' % (
+                c['timed']['rel_ms'], o['kills'], o['result'], 'as the source\'s %d ms say' % env['kill_ms']
+                if (o['kills'], o['result']) == want else 'NOT as the source\'s %d ms say' % env['kill_ms']))
         res.count('result=%s' % (o['result'][0] if o['result'][0] != 'exit' else 'exit:%d' % o['result'][1]))
         res.count('event=%s@%s' % (event, where) if event else ('late=%s' % late if late else 'no-event'))
         res.count('kills=%s' % (','.join(map(str, o['kills'])) or 'none'))
@@ -463,19 +729,19 @@ def evaluate(ctx, cases, res, env=None):
         if event or late or o['selfexit'] or o.get('slow'):
             res.nontrivial.add(key)
         if o.get('kills_other'):
-            res.oracle_failures.append({'case': c, 'signature': 'runner-signals-something-else',
+            res.oracle_failures.append({'case': c0, 'signature': 'runner-signals-something-else',
                                         'what': 'the runner called kill(2) on %r (target, signal), not on the step\'s process group: %s'
                                                 % (o['kills_other'][:4], describe(c, o)), 'impl': impl_s})
         if o.get('kills_text') != o['kills']:
             res.count('the runner\'s words ("sending ... signal") differ from its kill(2) calls')
         if not c.get('race') and bool(o.get('slow')) != expected_slow(c) and o['result'][0] != 'killed':
-            res.oracle_failures.append({'case': c, 'signature': 'handshake-outcome',
+            res.oracle_failures.append({'case': c0, 'signature': 'handshake-outcome',
                                         'what': 'the runner %s "process group failure" although the child was %sheld beyond '
                                         'the handshake timeout: %s' % ('reported' if o.get('slow') else 'did not report',
                                                                        '' if expected_slow(c) else 'not ', describe(c, o)),
                                         'impl': impl_s})
         if o['strangers']:
-            res.oracle_failures.append({'case': c, 'signature': 'unknown-process-in-group',
+            res.oracle_failures.append({'case': c0, 'signature': 'unknown-process-in-group',
                                         'what': '%d live process(es) in the step\'s group that the probe did not report: %s'
                                         % (o['strangers'], describe(c, o)), 'impl': impl_s})
         if c.get('race'):
@@ -483,16 +749,16 @@ def evaluate(ctx, cases, res, env=None):
                 res.count('race: runner killed before the step existed')
                 continue
         elif m != impl_s:
-            res.disagreements.append({'case': c, 'model': m, 'impl': impl_s, 'stderr': o.get('stderr', '')[-300:]})
+            res.disagreements.append({'case': c0, 'model': m, 'impl': impl_s, 'stderr': o.get('stderr', '')[-300:]})
         if ok != '1':
             if c.get('race'):
                 res.count('race: real (undriven) hit of ' + signature(c, o))
-            res.oracle_failures.append({'case': c, 'signature': signature(c, o), 'what': describe(c, o), 'impl': impl_s})
+            res.oracle_failures.append({'case': c0, 'signature': signature(c, o), 'what': describe(c, o), 'impl': impl_s})
         else:
             # THE LETTER OF THE PROPERTY where the specification [spec] is more lenient (Exec/KillLiteral.v): runs the
             # oracle accepts are judged once more against the literal reading of three clauses
             for lit in literal_readings(c, o):
-                res.oracle_failures.append({'case': c, 'signature': lit[0], 'what': lit[1] + ': ' + describe(c, o), 'impl': impl_s})
+                res.oracle_failures.append({'case': c0, 'signature': lit[0], 'what': lit[1] + ': ' + describe(c, o), 'impl': impl_s})
     return env
 
 
@@ -501,7 +767,11 @@ def load_corpus():
     files = sorted(glob.glob(os.path.join(common.VERIF, 'corpus', 'C07', '*.json')))
     if not files:
         raise common.BuildFailure('corpus/C07 is missing or empty: the cases of the known findings would not run')
-    return [json.load(open(p)) for p in files]
+    out = []
+    for p in files:
+        x = json.load(open(p))
+        out += x if isinstance(x, list) else [x]          # b07_<class>.json: one list per class family
+    return out
 
 
 def run(ctx, thorough=None):
@@ -513,7 +783,15 @@ def run(ctx, thorough=None):
                 'exiting before / during the kill, no event, events after the step ended; the forked child held before '
                 'setsid beyond the handshake timeout (SIGTERM / expiry of the timeout / nothing on the "process group '
                 'failure" path) or released in time; non-trivial = a signal was delivered, the timeout passed, a member '
-                'exited on its own or the handshake failed; distinct by (tree, mode, script)')
+                'exited on its own or the handshake failed; distinct by (tree, mode, script).  BOUNDARY CLASSES (corpus b07_*.json + '
+                'a small generated share, counted as "class: ..."): main + 0, 1, 2, 15-17, 31-33, 63-65 children / grandchildren '
+                '(also with every 2nd / 3rd ignoring SIGTERM), depth 1, 2, 8; 1, 2, 3, 16 SIGTERMs at the stop points of the takedown and '
+                '120 ms apart while the runner polls; SIGPIPE (ignored by the runner) at every sync point from exec.after_sigpipe on, '
+                'while blocked and inside the kill phase; TERM-ignoring members / main exiting on their own between the SIGTERM and '
+                'the SIGKILL; the main process exiting 0 / 1 / 255 at every stop point of the takedown; regress-timeout 0 and 1; the '
+                'main process exiting on its own 1.2 s before / 1.5 s after the escalation to SIGKILL; members STOPPED when the signal '
+                'arrives (handed to the model as TERM-ignoring) and members that left the group with setsid() (pruned: outside the '
+                'kernel model)')
     trees = list(QUICK_TREES)
     if thorough:
         seen = set(trees)
@@ -527,6 +805,8 @@ def run(ctx, thorough=None):
         # the quick tier keeps every tree but thins the scripts of the slow (TERM-ignoring main) trees
         pass
     cases += race_cases(ctx, 400 if thorough else 24)
+    # boundary size / shape classes: one deterministic case per class value is in corpus/C07/b07_*.json
+    cases += gen_boundary_cases(ctx.rng, 200 if thorough else 12)
     res.samples = cases[:2] + cases[-1:]
     res.assumptions = ['correspondence bounds: trees of <= 10 processes, one or two signals per run; the theorems have none']
     env = {}
@@ -543,6 +823,16 @@ def extended_search(ctx, res, proof):
 
 
 def replay(ctx, rep):
+    if isinstance(rep, list):          # a corpus file with one case per class value
+        res = common.Result()
+        evaluate(ctx, rep, res)
+        print('cases: %d' % len(rep))
+        print('disagreements:', json.dumps(res.disagreements, indent=1)[:3000])
+        print('oracle failures:', json.dumps([(f['signature'], f['what']) for f in res.oracle_failures], indent=1)[:4000])
+        print('tie errors:', res.tie_errors)
+        print('classes:', json.dumps({k: v for k, v in res.distribution.items() if k.startswith('class: ')}, indent=1))
+        return 1 if (res.disagreements or res.tie_errors or
+                     [f for f in res.oracle_failures if not common.match_known(ctx.pid, f.get('signature'))]) else 0
     case = rep.get('case') or (rep.get('first_disagreements') or [{}])[0].get('case')
     if case is None and 'tree' in rep and 'script' in rep:
         case = rep                      # a bare case (corpus file)
